@@ -161,13 +161,22 @@ func unary(c *check, server bool) {
 						opts = append([]gl.InterceptorOption{gl.WithName("svc"), gl.WithTags([]string{"a:b"})}, opts...)
 					}
 					custom := opt&1 != 0
+					res := callResults[cr]
+					argErr := ""
 					if custom {
+						// the classifier must be shown this call: its request, its result, its error
 						if server {
 							opts = append(opts, gl.WithServerResponseTypeClassifier(func(ctx context.Context, req interface{}, info *golangGrpc.UnaryServerInfo, resp interface{}, err error) gl.ResponseType {
+								if req != "req" || info == nil || info.FullMethod != "/svc/M" || resp != res.resp || err != res.err {
+									argErr = fmt.Sprintf("classifier received req=%v info=%v resp=%v err=%v", req, info, resp, err)
+								}
 								return gl.ResponseType(cls)
 							}))
 						} else {
 							opts = append(opts, gl.WithClientResponseTypeClassifier(func(ctx context.Context, method string, req, reply interface{}, err error) gl.ResponseType {
+								if method != "/svc/M" || req != "req" || reply != "reply" || err != res.err {
+									argErr = fmt.Sprintf("classifier received method=%v req=%v reply=%v err=%v", method, req, reply, err)
+								}
 								return gl.ResponseType(cls)
 							}))
 						}
@@ -182,7 +191,6 @@ func unary(c *check, server bool) {
 					if naming == 2 {
 						opts = append(opts, gl.WithName("svc"), gl.WithTags([]string{"a:b"}))
 					}
-					res := callResults[cr]
 					wantKind := "OnSuccess"
 					if custom {
 						wantKind = kindNames[cls]
@@ -210,6 +218,9 @@ func unary(c *check, server bool) {
 					}
 					side := map[bool]string{true: "unary-server", false: "unary-client"}[server]
 					c.expect(side, choices, log.ev, "limiter", grant == 1, wantKind, what)
+					if argErr != "" {
+						c.fail(side+"/classifier-arguments", choices, "%s: %s; the call was req=req result=(%v,%v)", what, argErr, res.resp, res.err)
+					}
 					if grant == 1 {
 						if gotErr != res.err || (server && gotResp != res.resp) {
 							c.fail(side+"/result-altered", choices, "%s: returned (%v,%v), the call returned (%v,%v)", what, gotResp, gotErr, res.resp, res.err)
@@ -404,6 +415,7 @@ func streamDefaults(c *check) {
 					inner.next = errCall
 				}
 				choices := []int{mode, kind, e}
+				var handlerRet error
 				ic := gl.StreamServerInterceptor(opts...)
 				err := ic(nil, inner, &golangGrpc.StreamServerInfo{FullMethod: "/svc/S"}, func(srv interface{}, stream golangGrpc.ServerStream) error {
 					var got error
@@ -435,10 +447,11 @@ func streamDefaults(c *check) {
 						}
 						c.fail(sig, choices, "%s: events %v, expected %v", what, log.ev, want)
 					}
-					return nil
+					handlerRet = got // the handler passes the operation's result on as its own
+					return got
 				})
-				if err != nil {
-					c.fail("stream/handler-result", choices, "interceptor returned %v for a handler that returned nil", err)
+				if err != handlerRet {
+					c.fail("stream/handler-result", choices, "interceptor returned %v, the handler returned %v", err, handlerRet)
 				}
 			}
 		}
